@@ -70,7 +70,10 @@ def generate(gen, tier):
     # (d) deep treespecs
     depths = [1001, 1002, 2000, 5000, 20000] + ([60000, 200000] if tier != 'quick' else [])
     for d in depths:
-        cases.append({'lines': [], 'o': {'kind': 'deepspec', 'depth': d}})
+        for ck in ['list', 'tuple', 'dict', 'odict', 'ddict', 'deque', 'namedtuple', 'custom', 'mixed']:
+            if d > 20000 and ck not in ('list', 'dict', 'custom', 'mixed'):
+                continue
+            cases.append({'lines': [], 'o': {'kind': 'deepspec', 'depth': d, 'chain': ck}})
     return cases
 
 
@@ -552,9 +555,10 @@ def _deepspec(impl, o):
         'gc': lambda s: __import__('gc').collect() >= 0,
     }
     for name, f in methods.items():
-        status, text = M.in_child(lambda: f(M.chain_spec(depth)), timeout=300)
+        status, text = M.in_child(lambda: f(M.chain_spec(depth, o.get('chain', 'list'))), timeout=300)
         if status.startswith('crash') or status == 'timeout':
-            fails.append({'key': f'deepspec-crash-{name}', 'what': f'treespec of depth {depth} (built with compose): {name}: {status}',
+            fails.append({'key': f'deepspec-crash-{name}-{o.get("chain", "list")}',
+                          'what': f'treespec of depth {depth} ({o.get("chain", "list")} chain built with compose): {name}: {status}',
                           'stderr': text[-600:]})
         elif status == 'exc' and ('InternalError' in text or 'SystemError' in text):
             fails.append({'key': f'deepspec-internal-{name}', 'what': f'treespec of depth {depth}: {name}: {text[:200]}'})
